@@ -17,7 +17,10 @@ CH = {0: '\n', 1: 'a', 2: '\r', 3: '\x0c', 4: ' ', 5: 'b'}
 RX = {0: '\\n', 1: 'a', 2: '\\r', 3: '\\f', 4: '\\u2028', 5: 'b'}
 CHAIN = {'none': None, 'identity': 'identity', 'lower': 'char-case -to-lower', 'filter': 'filter constant true',
          'run': '( run % cat )', 'replace': "replace 'zzz' 'y'", 'seq': '( identity | char-case -to-lower | identity )',
-         'strip-nothing': "replace -preserve-new-lines 'zzz' 'y'"}
+         'strip-nothing': "replace -preserve-new-lines 'zzz' 'y'",
+         # a line-wise transformer on top of one whose output is produced on demand
+         'filter-lower': '( filter constant true | char-case -to-lower )',
+         'run-identity': '( ( run % cat ) | identity | char-case -to-lower )'}
 
 
 def cfg(max_obs, text_ids, chains, mems, export=False):
@@ -44,6 +47,10 @@ def observer(o, c, home, wrong=False):
         return '-transformed-by filter -line-nums 2:\n    num-lines == %d' % (c['tailLines'] + (1 if wrong else 0))
     if o == 'head':
         return '-transformed-by filter -line-nums 1\n    num-lines == %d' % (c['headLines'] + (1 if wrong else 0))
+    if o == 'peek':       # reads the first line only
+        if c['numLines'] == 0:
+            return 'any line : constant true' if wrong else 'every line : constant false'
+        return 'any line : line-num == %d' % (c['numLines'] + 1 if wrong else 1)
     if o == 'notfirst':
         # compared with a text held in memory: its own first line (expressible when that line is made of a / b)
         fl = c['firstLine']
@@ -100,7 +107,7 @@ def run(ctx):
     quick = ctx.tier == 'quick'
     rnd = random.Random(ctx.seed)
     text_ids = list(range(1, 20))
-    chains = ['none', 'identity', 'lower', 'filter', 'run', 'replace', 'seq']
+    chains = ['none', 'identity', 'lower', 'filter', 'run', 'replace', 'seq', 'filter-lower', 'run-identity']
     mems = ['1', 'len', 'len+1', 'default'] if quick else ['1', 'len', 'len+1', 'len-1', 'default']
     max_obs = 2 if quick else 3
     mc = ctx.tlc('StringSource', cfg(max_obs + 1, text_ids, chains, mems), coverage=True, name='mc', timeout=3000)
